@@ -98,7 +98,6 @@ for _m in (S, F, dawgie.pl.dag, CH, M):
     assert _m.__file__.startswith(REPO + '/Python/'), _m.__file__
 
 
-
 def _containers(mod):
     '''the module-level builtin containers of `mod` (name -> shallow copy), taken at import time'''
     return {
@@ -1631,7 +1630,7 @@ def run_tier(prop, tier, seed, jobs, job_fn, monitor_factory, rule, clauses, t0,
     out = finish(prop, res, monitor_factory, rule, True, clauses, special=special)
     out['wall_s'] = round(time.time() - t0, 2)
     out['universes'] = len(jobs)
-    out['bfs_depths'] = sorted({j['depth'] for j in jobs})
+    out['bfs_depths'] = sorted({j['depth'] for j in jobs if 'scripts' not in j})
     return out
 
 
